@@ -263,5 +263,286 @@ theorem refConEtaPhi_complete (eta phi psi theta : ℝ) (N : M3 ℝ) (hN : IsRot
   · obtain ⟨hq, hc⟩ := hit (-a) q2 c2 h hb2
     exact ⟨_, List.mem_cons_of_mem _ List.mem_cons_self, hq, rfl, sameAngle_symm h, rfl, hc, rfl⟩
 
+/-! ## the branches that go through `__get_phi_and_qaz` -/
+
+/-- **`__get_phi_and_qaz` recovers phi and qaz** of a solution: with `V = Zᵀ·F(qaz)` the four `atan2` arguments are `(1 − V21²)` times the
+    sine and cosine of the two angles -/
+theorem phiAndQaz_complete (chi eta mu qaz0 phi0 : ℝ) (V : M3 ℝ)
+    (hV : V = M3.mul (M3.transpose (C04.Z mu eta chi phi0)) (Fq qaz0)) (hr : V.a21 ^ 2 ≠ 1) :
+    SameAngle (phiAndQaz chi eta mu V).1 qaz0 ∧ SameAngle (phiAndQaz chi eta mu V).2 phi0 := by
+  have hsm := Real.sin_sq_add_cos_sq mu
+  have hse := Real.sin_sq_add_cos_sq eta
+  have hsc := Real.sin_sq_add_cos_sq chi
+  have hsp := Real.sin_sq_add_cos_sq phi0
+  have hsq := Real.sin_sq_add_cos_sq qaz0
+  have hZrot : IsRot (M3.mul (M3.transpose (C04.Z mu eta chi phi0)) (Fq qaz0)) :=
+    IsRot.mul (C04.isRot_transpose (C04.isRot_Z _ _ _ _)) (isRot_Fq _)
+  have hrow : V.a20 ^ 2 + V.a21 ^ 2 + V.a22 ^ 2 = 1 := by rw [hV]; exact (isRot_entries_le hZrot).1
+  have hrpos : 0 < 1 - V.a21 ^ 2 := by
+    have : V.a21 ^ 2 ≤ 1 := by nlinarith [sq_nonneg V.a20, sq_nonneg V.a22]
+    rcases this.lt_or_eq with h | h
+    · linarith
+    · exact absurd h hr
+  have e20 : V.a20 = Real.cos chi * Real.cos mu * Real.cos qaz0 + Real.cos eta * Real.sin chi * Real.sin qaz0
+      - Real.cos qaz0 * Real.sin chi * Real.sin eta * Real.sin mu := by
+    rw [hV]; simp only [M3.mul, M3.transpose, C04.Z, rotX, rotZ, rotY, Fq, rs_cos, rs_sin, rs_one, rs_zero, Real.cos_neg, Real.sin_neg]; ring
+  have e21 : V.a21 = -(Real.cos chi * Real.sin mu) - Real.cos mu * Real.sin chi * Real.sin eta := by
+    rw [hV]; simp only [M3.mul, M3.transpose, C04.Z, rotX, rotZ, rotY, Fq, rs_cos, rs_sin, rs_one, rs_zero, Real.cos_neg, Real.sin_neg]; ring
+  have e22 : V.a22 = Real.cos chi * Real.cos mu * Real.sin qaz0 - Real.cos eta * Real.cos qaz0 * Real.sin chi
+      - Real.sin chi * Real.sin eta * Real.sin mu * Real.sin qaz0 := by
+    rw [hV]; simp only [M3.mul, M3.transpose, C04.Z, rotX, rotZ, rotY, Fq, rs_cos, rs_sin, rs_one, rs_zero, Real.cos_neg, Real.sin_neg]; ring
+  have e01 : V.a01 = -(Real.cos chi * Real.cos mu * Real.cos phi0 * Real.sin eta) - Real.cos eta * Real.cos mu * Real.sin phi0
+      + Real.cos phi0 * Real.sin chi * Real.sin mu := by
+    rw [hV]; simp only [M3.mul, M3.transpose, C04.Z, rotX, rotZ, rotY, Fq, rs_cos, rs_sin, rs_one, rs_zero, Real.cos_neg, Real.sin_neg]; ring
+  have e11 : V.a11 = -(Real.cos chi * Real.cos mu * Real.sin eta * Real.sin phi0) + Real.cos eta * Real.cos mu * Real.cos phi0
+      + Real.sin chi * Real.sin mu * Real.sin phi0 := by
+    rw [hV]; simp only [M3.mul, M3.transpose, C04.Z, rotX, rotZ, rotY, Fq, rs_cos, rs_sin, rs_one, rs_zero, Real.cos_neg, Real.sin_neg]; ring
+  set r := 1 - V.a21 ^ 2 with hrdef
+  have f1 : V.a20 * (Real.sin chi * Real.cos eta) - V.a22 * (Real.sin chi * Real.sin eta * Real.sin mu - Real.cos chi * Real.cos mu) = r * Real.sin qaz0 := by
+    rw [hrdef, e20, e21, e22]
+    linear_combination (Real.sin qaz0 * (Real.cos chi ^ 2 + Real.sin chi ^ 2 * Real.sin eta ^ 2)) * hsm + (Real.sin chi ^ 2 * Real.sin qaz0) * hse + (Real.sin qaz0) * hsc
+  have f2 : -V.a22 * (Real.sin chi * Real.cos eta) - V.a20 * (Real.sin chi * Real.sin eta * Real.sin mu - Real.cos chi * Real.cos mu) = r * Real.cos qaz0 := by
+    rw [hrdef, e20, e21, e22]
+    linear_combination (Real.cos qaz0 * (Real.cos chi ^ 2 + Real.sin chi ^ 2 * Real.sin eta ^ 2)) * hsm + (Real.cos qaz0 * Real.sin chi ^ 2) * hse + (Real.cos qaz0) * hsc
+  have f3 : V.a11 * (Real.sin chi * Real.sin mu - Real.cos mu * Real.cos chi * Real.sin eta) - V.a01 * (Real.cos mu * Real.cos eta) = r * Real.sin phi0 := by
+    rw [hrdef, e01, e11, e21]
+    linear_combination (Real.sin phi0 * (Real.cos chi ^ 2 + Real.sin chi ^ 2)) * hsm + (Real.cos mu ^ 2 * Real.sin phi0 * (Real.cos chi ^ 2 + Real.sin chi ^ 2)) * hse
+      + (-(Real.sin phi0) * (Real.cos eta * Real.cos mu - 1) * (Real.cos eta * Real.cos mu + 1)) * hsc
+  have f4 : V.a01 * (Real.sin chi * Real.sin mu - Real.cos mu * Real.cos chi * Real.sin eta) + V.a11 * (Real.cos mu * Real.cos eta) = r * Real.cos phi0 := by
+    rw [hrdef, e01, e11, e21]
+    linear_combination (Real.cos phi0 * (Real.cos chi ^ 2 + Real.sin chi ^ 2)) * hsm + (Real.cos mu ^ 2 * Real.cos phi0 * (Real.cos chi ^ 2 + Real.sin chi ^ 2)) * hse
+      + (-(Real.cos phi0) * (Real.cos eta * Real.cos mu - 1) * (Real.cos eta * Real.cos mu + 1)) * hsc
+  unfold phiAndQaz
+  simp only [rs_sin, rs_cos, rs_atan2, f1, f2, f3, f4]
+  exact ⟨sameAngle_atan2 _ _ _ _ hrpos rfl rfl, sameAngle_atan2 _ _ _ _ hrpos rfl rfl⟩
+
+/-- from the orientation equation to the form `V = Zᵀ·F(qaz)` used by `__get_phi_and_qaz` -/
+theorem V_of_refSpec (Vr : M3 ℝ) (qaz psi mu eta chi phi : ℝ) (h : RefSpec Vr (qaz, psi, mu, eta, chi, phi)) :
+    Vr = M3.mul (M3.transpose (C04.Z mu eta chi phi)) (Fq qaz) := by
+  unfold RefSpec at h
+  have := congrArg (fun m => M3.mul (M3.transpose (C04.Z mu eta chi phi)) m) h
+  simp only [] at this
+  rw [← M3.mul_assoc', (C04.isRot_Z mu eta chi phi).1, M3.id_mul] at this
+  exact this
+
+theorem Zt_congr_eta (mu eta eta' chi phi : ℝ) (h : SameAngle eta eta') : C04.Z mu eta chi phi = C04.Z mu eta' chi phi :=
+  Z_congr4 _ _ _ _ _ _ _ _ (sameAngle_refl _) h (sameAngle_refl _) (sameAngle_refl _)
+
+/-- **completeness of `__calc_sample_ref_con_chi_mu`** (chi and mu given): eta from a complete pair of `asin` roots, phi and qaz read off -/
+theorem refConChiMu_complete (chi mu psi theta : ℝ) (N : M3 ℝ)
+    (qaz0 eta0 phi0 : ℝ) (hS : RefSpec (Vref psi theta N) (qaz0, psi, mu, eta0, chi, phi0))
+    (hd : Real.sin chi * Real.cos mu ≠ 0) (hne : (Vref psi theta N).a21 ^ 2 ≠ 1) :
+    ∃ l, refConChiMu chi mu psi theta N = .ok l ∧
+      ∃ t ∈ l, SameAngle t.1 qaz0 ∧ t.2.1 = psi ∧ t.2.2.1 = mu ∧ SameAngle t.2.2.2.1 eta0 ∧ t.2.2.2.2.1 = chi ∧ SameAngle t.2.2.2.2.2 phi0 := by
+  have hV := V_of_refSpec _ qaz0 psi mu eta0 chi phi0 hS
+  set V := Vref psi theta N with hVdef
+  have e21 : V.a21 = -(Real.cos chi * Real.sin mu) - Real.cos mu * Real.sin chi * Real.sin eta0 := by
+    rw [hV]; simp only [M3.mul, M3.transpose, C04.Z, rotX, rotZ, rotY, Fq, rs_cos, rs_sin, rs_one, rs_zero, Real.cos_neg, Real.sin_neg]; ring
+  have h1 : Real.sin chi ≠ 0 := left_ne_zero_of_mul hd
+  have h2 : Real.cos mu ≠ 0 := right_ne_zero_of_mul hd
+  have hx : (-V.a21 - Real.cos chi * Real.sin mu) / (Real.sin chi * Real.cos mu) = Real.sin eta0 := by rw [e21]; field_simp; ring
+  have hxabs : |(-V.a21 - Real.cos chi * Real.sin mu) / (Real.sin chi * Real.cos mu)| ≤ 1 := by rw [hx]; exact Real.abs_sin_le_one _
+  have hroots := asin_roots_complete eta0 (Real.sin eta0) (Real.abs_sin_le_one _) rfl
+  unfold refConChiMu boundAsin tryAssert
+  simp only [rs_sin, rs_cos, rs_pi, ← hVdef]
+  rw [bound_id hxabs]
+  simp only [bind, Except.bind, hx, pyAsin_ok (Real.abs_sin_le_one eta0)]
+  refine ⟨_, rfl, ?_⟩
+  set a := Real.arcsin (Real.sin eta0) with ha
+  have hit : ∀ eta, SameAngle eta0 eta →
+      SameAngle (phiAndQaz chi eta mu V).1 qaz0 ∧ SameAngle (phiAndQaz chi eta mu V).2 phi0 := by
+    intro eta hs
+    exact phiAndQaz_complete chi eta mu qaz0 phi0 V (by rw [hV, Zt_congr_eta mu eta0 eta chi phi0 hs]) hne
+  rcases hroots with h | h
+  · obtain ⟨hq, hp⟩ := hit a h
+    exact ⟨_, List.mem_cons_self, hq, rfl, rfl, sameAngle_symm h, rfl, hp⟩
+  · obtain ⟨hq, hp⟩ := hit (Real.pi - a) h
+    exact ⟨_, List.mem_cons_of_mem _ List.mem_cons_self, hq, rfl, rfl, sameAngle_symm h, rfl, hp⟩
+
+/-! ## the two branches with a phase-shifted root pair (mu + eta given: chi; chi + eta given: mu) -/
+
+/-- the equation `X = A sin t + B cos t` solved the way `calc_reference.py` does it: either `asin(X/R)` shifted by `atan2(B, A)`, or
+    `acos(X/R)` shifted by `atan2(A, B)`; both root pairs are complete -/
+theorem shifted_roots (t A B X : ℝ) (hne : A ≠ 0 ∨ B ≠ 0) (hX : X = A * Real.sin t + B * Real.cos t) :
+    |X / Real.sqrt (A * A + B * B)| ≤ 1 ∧
+    (SameAngle t (Real.arcsin (X / Real.sqrt (A * A + B * B)) - atan2R B A) ∨
+     SameAngle t (Real.pi - Real.arcsin (X / Real.sqrt (A * A + B * B)) - atan2R B A)) ∧
+    (SameAngle t (atan2R A B + Real.arccos (X / Real.sqrt (A * A + B * B))) ∨
+     SameAngle t (atan2R A B - Real.arccos (X / Real.sqrt (A * A + B * B)))) := by
+  set R := Real.sqrt (A * A + B * B) with hRdef
+  have hpos : 0 < A * A + B * B := by
+    rcases hne with h | h
+    · have := mul_self_pos.mpr h; nlinarith [mul_self_nonneg B]
+    · have := mul_self_pos.mpr h; nlinarith [mul_self_nonneg A]
+  have hR : 0 < R := Real.sqrt_pos.mpr hpos
+  have hR2 : R ^ 2 = A * A + B * B := by rw [hRdef, Real.sq_sqrt hpos.le]
+  obtain ⟨c1, s1⟩ := atan2_cs A B R hR (by rw [hR2]; ring)        -- eps  = atan2(B, A): cos = A/R, sin = B/R
+  obtain ⟨c2, s2⟩ := atan2_cs B A R hR (by rw [hR2]; ring)        -- eps' = atan2(A, B): cos = B/R, sin = A/R
+  have hsin : Real.sin (t + atan2R B A) = X / R := by
+    rw [Real.sin_add, c1, s1, hX]; field_simp
+  have hcos : Real.cos (t - atan2R A B) = X / R := by
+    rw [Real.cos_sub, c2, s2, hX]; field_simp; ring
+  have habs : |X / R| ≤ 1 := by rw [← hsin]; exact Real.abs_sin_le_one _
+  refine ⟨habs, ?_, ?_⟩
+  · rcases asin_roots_complete (t + atan2R B A) (X / R) habs hsin with h | h
+    · left
+      have := sameAngle_add _ _ (-(atan2R B A)) h
+      rwa [add_neg_cancel_right, ← sub_eq_add_neg] at this
+    · right
+      have := sameAngle_add _ _ (-(atan2R B A)) h
+      rwa [add_neg_cancel_right, ← sub_eq_add_neg] at this
+  · rcases acos_roots_complete (t - atan2R A B) (X / R) habs hcos with h | h
+    · left
+      have := sameAngle_add _ _ (atan2R A B) h
+      rwa [sub_add_cancel, add_comm] at this
+    · right
+      have := sameAngle_add _ _ (atan2R A B) h
+      rw [sub_add_cancel] at this
+      have e : -Real.arccos (X / R) + atan2R A B = atan2R A B - Real.arccos (X / R) := by ring
+      rwa [e] at this
+
+theorem Zt_congr_chi (mu eta chi chi' phi : ℝ) (h : SameAngle chi chi') : C04.Z mu eta chi phi = C04.Z mu eta chi' phi :=
+  Z_congr4 _ _ _ _ _ _ _ _ (sameAngle_refl _) (sameAngle_refl _) h (sameAngle_refl _)
+
+theorem Zt_congr_mu (mu mu' eta chi phi : ℝ) (h : SameAngle mu mu') : C04.Z mu eta chi phi = C04.Z mu' eta chi phi :=
+  Z_congr4 _ _ _ _ _ _ _ _ h (sameAngle_refl _) (sameAngle_refl _) (sameAngle_refl _)
+
+/-- **completeness of `__calc_sample_ref_con_mu_eta`** (mu and eta given): chi from a complete, phase-shifted root pair (either of the two
+    forms the source chooses between), phi and qaz read off -/
+theorem refConMuEta_complete (mu eta psi theta : ℝ) (N : M3 ℝ)
+    (qaz0 chi0 phi0 : ℝ) (hS : RefSpec (Vref psi theta N) (qaz0, psi, mu, eta, chi0, phi0))
+    (hR : Real.sin eta * Real.cos mu ≠ 0 ∨ Real.sin mu ≠ 0) (hne : (Vref psi theta N).a21 ^ 2 ≠ 1) :
+    ∃ l, refConMuEta mu eta psi theta N = .ok l ∧
+      ∃ t ∈ l, SameAngle t.1 qaz0 ∧ t.2.1 = psi ∧ t.2.2.1 = mu ∧ t.2.2.2.1 = eta ∧ SameAngle t.2.2.2.2.1 chi0 ∧ SameAngle t.2.2.2.2.2 phi0 := by
+  have hV := V_of_refSpec _ qaz0 psi mu eta chi0 phi0 hS
+  set V := Vref psi theta N with hVdef
+  have e21 : -V.a21 = (Real.sin eta * Real.cos mu) * Real.sin chi0 + Real.sin mu * Real.cos chi0 := by
+    rw [hV]; simp only [M3.mul, M3.transpose, C04.Z, rotX, rotZ, rotY, Fq, rs_cos, rs_sin, rs_one, rs_zero, Real.cos_neg, Real.sin_neg]; ring
+  obtain ⟨habs, hasin, hacos⟩ := shifted_roots chi0 (Real.sin eta * Real.cos mu) (Real.sin mu) (-V.a21) hR e21
+  have hS' : Real.sin eta * Real.sin eta * (Real.cos mu * Real.cos mu) + Real.sin mu * Real.sin mu
+      = Real.sin eta * Real.cos mu * (Real.sin eta * Real.cos mu) + Real.sin mu * Real.sin mu := by ring
+  have hnn : 0 ≤ Real.sin eta * Real.cos mu * (Real.sin eta * Real.cos mu) + Real.sin mu * Real.sin mu := by
+    nlinarith [mul_self_nonneg (Real.sin eta * Real.cos mu), mul_self_nonneg (Real.sin mu)]
+  set R := Real.sqrt (Real.sin eta * Real.cos mu * (Real.sin eta * Real.cos mu) + Real.sin mu * Real.sin mu) with hRdef
+  have hit : ∀ chi, SameAngle chi0 chi →
+      SameAngle (phiAndQaz chi eta mu V).1 qaz0 ∧ SameAngle (phiAndQaz chi eta mu V).2 phi0 := by
+    intro chi hs
+    exact phiAndQaz_complete chi eta mu qaz0 phi0 V (by rw [hV, Zt_congr_chi mu eta chi0 chi phi0 hs]) hne
+  unfold refConMuEta tryAssert
+  simp only [rs_sin, rs_cos, rs_atan2, rs_pi, ← hVdef, hS', bind, Except.bind, pySqrt_ok hnn, ← hRdef, bound_id habs]
+  by_cases hsm : Scalar.isSmall (Real.cos mu * Real.sin eta) = true
+  · simp only [hsm, if_true, pyAcos_ok habs, pure, Except.pure]
+    refine ⟨_, rfl, ?_⟩
+    rcases hacos with h | h
+    · obtain ⟨hq, hp⟩ := hit _ h
+      exact ⟨_, List.mem_cons_self, hq, rfl, rfl, rfl, sameAngle_symm h, hp⟩
+    · obtain ⟨hq, hp⟩ := hit _ h
+      exact ⟨_, List.mem_cons_of_mem _ List.mem_cons_self, hq, rfl, rfl, rfl, sameAngle_symm h, hp⟩
+  · simp only [hsm, Bool.false_eq_true, if_false, pyAsin_ok habs, pure, Except.pure]
+    refine ⟨_, rfl, ?_⟩
+    rcases hasin with h | h
+    · obtain ⟨hq, hp⟩ := hit _ h
+      exact ⟨_, List.mem_cons_self, hq, rfl, rfl, rfl, sameAngle_symm h, hp⟩
+    · obtain ⟨hq, hp⟩ := hit _ h
+      exact ⟨_, List.mem_cons_of_mem _ List.mem_cons_self, hq, rfl, rfl, rfl, sameAngle_symm h, hp⟩
+
+/-- **completeness of `__calc_sample_ref_con_chi_eta`** (chi and eta given): mu from a complete, phase-shifted root pair, phi and qaz read off -/
+theorem refConChiEta_complete (chi eta psi theta : ℝ) (N : M3 ℝ)
+    (qaz0 mu0 phi0 : ℝ) (hS : RefSpec (Vref psi theta N) (qaz0, psi, mu0, eta, chi, phi0))
+    (hR : Real.cos chi ≠ 0 ∨ Real.sin chi * Real.sin eta ≠ 0) (hne : (Vref psi theta N).a21 ^ 2 ≠ 1) :
+    ∃ l, refConChiEta chi eta psi theta N = .ok l ∧
+      ∃ t ∈ l, SameAngle t.1 qaz0 ∧ t.2.1 = psi ∧ SameAngle t.2.2.1 mu0 ∧ t.2.2.2.1 = eta ∧ t.2.2.2.2.1 = chi ∧ SameAngle t.2.2.2.2.2 phi0 := by
+  have hV := V_of_refSpec _ qaz0 psi mu0 eta chi phi0 hS
+  set V := Vref psi theta N with hVdef
+  have e21 : -V.a21 = Real.cos chi * Real.sin mu0 + (Real.sin chi * Real.sin eta) * Real.cos mu0 := by
+    rw [hV]; simp only [M3.mul, M3.transpose, C04.Z, rotX, rotZ, rotY, Fq, rs_cos, rs_sin, rs_one, rs_zero, Real.cos_neg, Real.sin_neg]; ring
+  obtain ⟨habs, hasin, hacos⟩ := shifted_roots mu0 (Real.cos chi) (Real.sin chi * Real.sin eta) (-V.a21) hR e21
+  have hS' : Real.sin eta * Real.sin eta * (Real.sin chi * Real.sin chi) + Real.cos chi * Real.cos chi
+      = Real.cos chi * Real.cos chi + Real.sin chi * Real.sin eta * (Real.sin chi * Real.sin eta) := by ring
+  have hnn : 0 ≤ Real.cos chi * Real.cos chi + Real.sin chi * Real.sin eta * (Real.sin chi * Real.sin eta) := by
+    nlinarith [mul_self_nonneg (Real.sin chi * Real.sin eta), mul_self_nonneg (Real.cos chi)]
+  set R := Real.sqrt (Real.cos chi * Real.cos chi + Real.sin chi * Real.sin eta * (Real.sin chi * Real.sin eta)) with hRdef
+  have hit : ∀ mu, SameAngle mu0 mu →
+      SameAngle (phiAndQaz chi eta mu V).1 qaz0 ∧ SameAngle (phiAndQaz chi eta mu V).2 phi0 := by
+    intro mu hs
+    exact phiAndQaz_complete chi eta mu qaz0 phi0 V (by rw [hV, Zt_congr_mu mu0 mu eta chi phi0 hs]) hne
+  unfold refConChiEta tryAssert
+  simp only [rs_sin, rs_cos, rs_atan2, rs_pi, ← hVdef, hS', bind, Except.bind, pySqrt_ok hnn, ← hRdef, bound_id habs]
+  by_cases hsm : Scalar.isSmall (Real.cos chi) = true
+  · simp only [hsm, if_true, pyAcos_ok habs, pure, Except.pure]
+    refine ⟨_, rfl, ?_⟩
+    rcases hacos with h | h
+    · obtain ⟨hq, hp⟩ := hit _ h
+      exact ⟨_, List.mem_cons_self, hq, rfl, sameAngle_symm h, rfl, rfl, hp⟩
+    · obtain ⟨hq, hp⟩ := hit _ h
+      exact ⟨_, List.mem_cons_of_mem _ List.mem_cons_self, hq, rfl, sameAngle_symm h, rfl, rfl, hp⟩
+  · simp only [hsm, Bool.false_eq_true, if_false, pyAsin_ok habs, pure, Except.pure]
+    refine ⟨_, rfl, ?_⟩
+    rcases hasin with h | h
+    · obtain ⟨hq, hp⟩ := hit _ h
+      exact ⟨_, List.mem_cons_self, hq, rfl, sameAngle_symm h, rfl, rfl, hp⟩
+    · obtain ⟨hq, hp⟩ := hit _ h
+      exact ⟨_, List.mem_cons_of_mem _ List.mem_cons_self, hq, rfl, sameAngle_symm h, rfl, rfl, hp⟩
+
+/-- the position carries the two given sample values of a reference + two-sample mode -/
+def CarriesRef (s : Samp2Ref ℝ) (mu eta chi phi : ℝ) : Prop :=
+  match s with
+  | .chiPhi c p => chi = c ∧ phi = p
+  | .muEta m e => mu = m ∧ eta = e
+  | .chiEta c e => chi = c ∧ eta = e
+  | .chiMu c m => chi = c ∧ mu = m
+  | .muPhi m p => mu = m ∧ phi = p
+  | .etaPhi e p => eta = e ∧ phi = p
+
+/-- generic branch of each of the six solvers at the position to be recovered (no degenerate axis, `V21² ≠ 1`, no sibling root of
+    `__get_chi_and_qaz` raising) -/
+def Samp2RefRegular (s : Samp2Ref ℝ) (psi theta : ℝ) (N : M3 ℝ) (qaz mu eta chi phi : ℝ) : Prop :=
+  match s with
+  | .chiPhi _ _ => Scalar.isSmall (Real.cos (Real.arcsin (Real.sin mu))) = false ∧
+      (Scalar.isSmall (|Real.cos mu| * Real.sin eta) && Scalar.isSmall (|Real.cos mu| * Real.cos eta)) = false ∧
+      (Scalar.isSmall (|Real.cos mu| * Real.sin qaz) && Scalar.isSmall (|Real.cos mu| * Real.cos qaz)) = false
+  | .muEta _ _ => (Real.sin eta * Real.cos mu ≠ 0 ∨ Real.sin mu ≠ 0) ∧ (Vref psi theta N).a21 ^ 2 ≠ 1
+  | .chiEta _ _ => (Real.cos chi ≠ 0 ∨ Real.sin chi * Real.sin eta ≠ 0) ∧ (Vref psi theta N).a21 ^ 2 ≠ 1
+  | .chiMu _ _ => Real.sin chi * Real.cos mu ≠ 0 ∧ (Vref psi theta N).a21 ^ 2 ≠ 1
+  | .muPhi _ _ => Scalar.isSmall (Real.cos mu) = false ∧ (Real.cos mu * Real.cos eta) ^ 2 ≠ 1 ∧
+      (Scalar.isSmall ((1 - (Real.cos mu * Real.cos eta) ^ 2) * Real.sin chi) && Scalar.isSmall ((1 - (Real.cos mu * Real.cos eta) ^ 2) * Real.cos chi)) = false ∧
+      (∀ e ∈ [Real.arccos (Real.cos eta), -Real.arccos (Real.cos eta)], ∃ qc, chiAndQaz mu e (Vref2 phi psi theta N) = .ok qc)
+  | .etaPhi _ _ => Scalar.isSmall (Real.cos eta) = false ∧ (Real.cos mu * Real.cos eta) ^ 2 ≠ 1 ∧
+      (Scalar.isSmall ((1 - (Real.cos mu * Real.cos eta) ^ 2) * Real.sin chi) && Scalar.isSmall ((1 - (Real.cos mu * Real.cos eta) ^ 2) * Real.cos chi)) = false ∧
+      (∀ m ∈ [Real.arccos (Real.cos mu), -Real.arccos (Real.cos mu)], ∃ qc, chiAndQaz m eta (Vref2 phi psi theta N) = .ok qc)
+
+/-- **completeness of `_calc_sample_con_two_sample_and_reference`, all six branches behind the dispatcher**: every solution of the orientation
+    equation `Z·N_phi·PSIᵀ·THETAᵀ = F(qaz)` that carries the two given sample angles is returned, modulo 2π in the computed angles -/
+theorem twoSampleReference_complete (s : Samp2Ref ℝ) (psi theta : ℝ) (N : M3 ℝ) (hN : IsRot N)
+    (qaz0 mu0 eta0 chi0 phi0 : ℝ) (hS : RefSpec (Vref psi theta N) (qaz0, psi, mu0, eta0, chi0, phi0))
+    (hc : CarriesRef s mu0 eta0 chi0 phi0) (hr : Samp2RefRegular s psi theta N qaz0 mu0 eta0 chi0 phi0) :
+    ∃ l, twoSampleReference s psi theta N = .ok l ∧
+      ∃ t ∈ l, SameAngle t.1 qaz0 ∧ t.2.1 = psi ∧ SameAngle t.2.2.1 mu0 ∧ SameAngle t.2.2.2.1 eta0 ∧ SameAngle t.2.2.2.2.1 chi0 ∧ SameAngle t.2.2.2.2.2 phi0 := by
+  cases s with
+  | chiPhi c p =>
+    obtain ⟨rfl, rfl⟩ := hc
+    obtain ⟨l, hl, t, ht, h1, h2, h3, h4, h5, h6⟩ := refConChiPhi_complete _ _ psi theta N qaz0 mu0 eta0 hS hr.1 hr.2.1 hr.2.2
+    exact ⟨l, hl, t, ht, h1, h2, h3, h4, sameAngle_of_eq h5, sameAngle_of_eq h6⟩
+  | muEta m e =>
+    obtain ⟨rfl, rfl⟩ := hc
+    obtain ⟨l, hl, t, ht, h1, h2, h3, h4, h5, h6⟩ := refConMuEta_complete _ _ psi theta N qaz0 chi0 phi0 hS hr.1 hr.2
+    exact ⟨l, hl, t, ht, h1, h2, sameAngle_of_eq h3, sameAngle_of_eq h4, h5, h6⟩
+  | chiEta c e =>
+    obtain ⟨rfl, rfl⟩ := hc
+    obtain ⟨l, hl, t, ht, h1, h2, h3, h4, h5, h6⟩ := refConChiEta_complete _ _ psi theta N qaz0 mu0 phi0 hS hr.1 hr.2
+    exact ⟨l, hl, t, ht, h1, h2, h3, sameAngle_of_eq h4, sameAngle_of_eq h5, h6⟩
+  | chiMu c m =>
+    obtain ⟨rfl, rfl⟩ := hc
+    obtain ⟨l, hl, t, ht, h1, h2, h3, h4, h5, h6⟩ := refConChiMu_complete _ _ psi theta N qaz0 eta0 phi0 hS hr.1 hr.2
+    exact ⟨l, hl, t, ht, h1, h2, sameAngle_of_eq h3, h4, sameAngle_of_eq h5, h6⟩
+  | muPhi m p =>
+    obtain ⟨rfl, rfl⟩ := hc
+    obtain ⟨l, hl, t, ht, h1, h2, h3, h4, h5, h6⟩ := refConMuPhi_complete _ _ psi theta N hN qaz0 eta0 chi0 hS hr.1 hr.2.1 hr.2.2.1 hr.2.2.2
+    exact ⟨l, hl, t, ht, h1, h2, sameAngle_of_eq h3, h4, h5, sameAngle_of_eq h6⟩
+  | etaPhi e p =>
+    obtain ⟨rfl, rfl⟩ := hc
+    obtain ⟨l, hl, t, ht, h1, h2, h3, h4, h5, h6⟩ := refConEtaPhi_complete _ _ psi theta N hN qaz0 mu0 chi0 hS hr.1 hr.2.1 hr.2.2.1 hr.2.2.2
+    exact ⟨l, hl, t, ht, h1, h2, h3, sameAngle_of_eq h4, h5, sameAngle_of_eq h6⟩
+
 end
 end C03
